@@ -172,7 +172,7 @@ def generate(tier, seed, casedir, variant):
     import c11
     nsep = 3 if tier == "quick" else 9
     try:
-        viol += [v for v in c11.impl_vs_impl(rng, nsep, terms_only=True) if "boundary" in v["detail"] or "Neumann" in v["detail"] or "neumann" in v["detail"]]
+        viol += [v for v in c11.impl_vs_impl(rng, nsep, terms_only=True) if any(w in v["detail"] for w in ("boundary", "Neumann", "neumann", "irichlet"))]
     except Exception as ex:
         viol.append({"detail": f"separable / pointwise boundary comparison raised {type(ex).__name__}: {str(ex)[:300]}", "case": {"what": "impl_vs_impl"}})
     dist["separable_vs_pointwise_rounds"] = nsep
